@@ -752,6 +752,125 @@ func windowFamily(r *hx.Rand) {
 	}
 }
 
+// structCase: Samples as a caller may legitimately build them besides NewSample — the struct has only
+// exported fields: a literal &Sample{Values: sorted, Thresholds: t}, new(Sample) filled afterwards, a
+// trimmed &Sample{Values: s.Values[i:j]} — and Samples whose exported Warnings field the caller filled
+// (0..2 entries, with and without spare capacity, possibly shared by two Samples), summarised several
+// times. Demands: (same) every result equals the one for a NewSample of the same values without
+// caller warnings — in particular the exact model warns exactly when values differ, whatever
+// s.Warnings holds; (again) the warnings of a Summary returned earlier read the same at the end;
+// (in) the caller's warning slice, spare slots included, is untouched.
+func structCase(r *hx.Rand) {
+	defer func() {
+		if e := recover(); e != nil {
+			panicCase("kind=sw", "struct", e)
+		}
+	}()
+	a := hx.Pick(r, anames)
+	asm := assumptions[a]
+	thr := &benchmath.Thresholds{CompareAlpha: hx.Pick(r, []float64{0.05, 0.01, 0.5})}
+	gen := func(n int) []float64 {
+		xs := make([]float64, n)
+		mode := r.Intn(3)
+		for i := range xs {
+			switch mode {
+			case 0:
+				xs[i] = float64(1 + r.Intn(3))
+			case 1:
+				xs[i] = 7 // all equal
+			default:
+				xs[i] = float64(r.Intn(40)) / 4
+			}
+		}
+		return xs
+	}
+	sorted := func(xs []float64) []float64 { // as NewSample leaves them
+		return append([]float64(nil), benchmath.NewSample(append([]float64(nil), xs...), thr).Values...)
+	}
+	texts := func(ws []error) string {
+		var t []string
+		for _, w := range ws {
+			t = append(t, w.Error())
+		}
+		return hx.HexS(strings.Join(t, "|"))
+	}
+	sumS := func(o benchmath.Summary) string {
+		return fmt.Sprintf("%s:%s:%s:%s:%d:%s", raw(o.Center), raw(o.Lo), raw(o.Hi), raw(o.Confidence), len(o.Warnings), texts(o.Warnings))
+	}
+	cmpS := func(o benchmath.Comparison) string {
+		return fmt.Sprintf("%s:%d:%d:%s:%d:%s", raw(o.P), o.N1, o.N2, raw(o.Alpha), len(o.Warnings), texts(o.Warnings))
+	}
+	ref := func(xs []float64) *benchmath.Sample { return benchmath.NewSample(append([]float64(nil), xs...), thr) }
+	confs := []float64{0.95, 0.99, 0.5}
+	var ops, ra, rf []string
+	add := func(op, got, want string) { ops = append(ops, op); ra = append(ra, got); rf = append(rf, want) }
+
+	v1, v2 := gen(1+r.Intn(7)), gen(1+r.Intn(7))
+	// literal, filled-in and trimmed Samples
+	lit1 := &benchmath.Sample{Values: sorted(v1), Thresholds: thr}
+	lit2 := &benchmath.Sample{Values: sorted(v2), Thresholds: thr}
+	add("L", sumS(asm.Summary(lit1, 0.95)), sumS(asm.Summary(ref(v1), 0.95)))
+	filled := new(benchmath.Sample)
+	filled.Values, filled.Thresholds = sorted(v2), thr
+	add("N", sumS(asm.Summary(filled, 0.9)), sumS(asm.Summary(ref(v2), 0.9)))
+	big := benchmath.NewSample(append(append([]float64(nil), v1...), v2...), thr)
+	i := r.Intn(len(big.Values))
+	j := i + 1 + r.Intn(len(big.Values)-i)
+	trim := &benchmath.Sample{Values: big.Values[i:j], Thresholds: thr}
+	add("T", sumS(asm.Summary(trim, 0.95)), sumS(asm.Summary(ref(big.Values[i:j]), 0.95)))
+	if a != "normal" || (len(v1) > 1 && len(v2) > 1) {
+		add("C", cmpS(asm.Compare(lit1, lit2)), cmpS(asm.Compare(ref(v1), ref(v2))))
+	}
+	// caller-set Warnings
+	wl := r.Intn(3)
+	wc := wl + []int{0, 0, 1, 5}[r.Intn(4)]
+	full := make([]error, wc)
+	for k := range full {
+		full[k] = fmt.Errorf("caller note %d", k)
+	}
+	keep := append([]error(nil), full...)
+	sA := ref(v1)
+	sA.Warnings = full[:wl]
+	sB := ref(v2)
+	if r.Bool() {
+		sB.Warnings = full[:wl] // shared between two Samples
+	}
+	type got struct {
+		sum   benchmath.Summary
+		first string
+	}
+	var gots []got
+	nsum := 2 + r.Intn(2)
+	for k := 0; k < nsum; k++ {
+		smp, vals := sA, v1
+		if k%2 == 1 && r.Bool() {
+			smp, vals = sB, v2
+		}
+		o := asm.Summary(smp, confs[k])
+		add(fmt.Sprintf("W%d", k), sumS(o), sumS(asm.Summary(ref(vals), confs[k])))
+		gots = append(gots, got{o, texts(o.Warnings)})
+	}
+	var w1, w2 []string
+	for _, g := range gots {
+		w1 = append(w1, g.first+".")
+		w2 = append(w2, texts(g.sum.Warnings)+".")
+	}
+	in := "kept"
+	for k := range full {
+		if full[k] != keep[k] {
+			in = "modified"
+		}
+	}
+	if len(sA.Warnings) != wl {
+		in = "modified"
+	}
+	hx.Printf("case %d kind=sw a=%s v1=%s v2=%s wlen=%d wcap=%d ops=%s ra=%s rf=%s w1=%s w2=%s tag=struct+%s\n", id, a, list(v1), list(v2),
+		wl, wc, strings.Join(ops, ","), strings.Join(ra, ","), strings.Join(rf, ","), strings.Join(w1, ","), strings.Join(w2, ","), a)
+	hx.Printf("obs %d ops=%d\n", id, len(ops))
+	hx.Printf("sobs %d same=ok again=ok in=%s\n", id, in)
+	id++
+}
+
 // globCase: package-level state after the whole run.
 func globCase() {
 	tab := benchmath.VerifUTestMinP()
@@ -1272,6 +1391,10 @@ func main() {
 		aliasCase(ra)
 	}
 	cacheFamily(hx.NewRand(1318))
+	rs := hx.NewRand(1321)
+	for i := hx.N(600, 6000); i > 0; i-- {
+		structCase(rs)
+	}
 	windowFamily(hx.NewRand(1320))
 	rc := hx.NewRand(1319)
 	for i := hx.N(60, 600); i > 0; i-- {
